@@ -292,6 +292,13 @@ func (i *IGMP) DecodeFromBytes(data []byte, df gopacket.DecodeFeedback) error {
 	// common IGMP header values between versions 1..3 of IGMP specification..
 	i.Type = IGMPType(data[0])
 
+	// The remaining fields depend on the message type (and the lists are appended
+	// to): forget what a previous message left in a reused layer.
+	i.MaxResponseTime, i.Checksum, i.GroupAddress = 0, 0, nil
+	i.SupressRouterProcessing, i.RobustnessValue, i.IntervalTime = false, 0, 0
+	i.NumberOfSources, i.SourceAddresses = 0, nil
+	i.NumberOfGroupRecords, i.GroupRecords = 0, nil
+
 	switch i.Type {
 	case IGMPMembershipQuery:
 		i.decodeIGMPv3MembershipQuery(data)
